@@ -307,9 +307,10 @@ def n4_iter_any(src, log):
     """RECV.iter().any(|P| B)  ->  { short-circuiting index loop }   (documented semantics of Iterator::any on a slice iterator: the elements
     are visited in order, the closure is called on a reference to each, the first `true` ends the walk). RECV must be a plain path
     (identifiers, `.`, `&`), the closure a literal with a single identifier parameter."""
+    pos = 0
     while True:
         m = mask(src)
-        mm = re.search(r'([A-Za-z_][A-Za-z0-9_\.]*)\s*\.iter\(\)\s*\.any\s*\(', m)
+        mm = re.compile(r'([A-Za-z_][A-Za-z0-9_\.]*)\s*\.iter\(\)\s*\.any\s*\(').search(m, pos)
         if not mm: break
         recv = src[mm.start(1):mm.end(1)]
         open_p = mm.end() - 1
@@ -317,7 +318,8 @@ def n4_iter_any(src, log):
         inner = src[open_p + 1:close_p].strip()
         cm = re.match(r'\|\s*([a-z_][A-Za-z0-9_]*)\s*\|\s*(.*)$', inner, re.S)
         if not cm:
-            raise ValueError('N4: the argument of any() is not a closure literal with one identifier parameter: ' + inner[:40])
+            # not the shape the rule covers: the site is left as it is (Verus will say what it cannot take)
+            log.append('N4 left a .iter().any(..) site alone (argument is not a closure literal with one identifier parameter)'); pos = mm.end(); continue
         pat, body = cm.group(1), cm.group(2).strip()
         rep = ('{ let mut __any = false; let mut __j: usize = 0; while __j < %s.len() { let %s = &%s[__j]; '
                'if %s { __any = true; break; } __j += 1; } __any }') % (recv, pat, recv, body)
@@ -352,9 +354,10 @@ def n5_iter_map_collect(src, log):
     """RECV.iter().map(|P| E).collect()  ->  { push loop }   (documented semantics of slice::Iter / Iterator::map / collect::<Vec<_>>: the
     closure is applied to a reference to each element in order and the results are collected in that order). The closure must be a literal
     with a single identifier parameter."""
+    pos = 0
     while True:
         m = mask(src)
-        mm = re.search(r'\.iter\(\)\s*\.map\s*\(', m)
+        mm = re.compile(r'\.iter\(\)\s*\.map\s*\(').search(m, pos)
         if not mm: break
         rs = _recv_start(m, mm.start())
         recv = src[rs:mm.start()]
@@ -364,7 +367,8 @@ def n5_iter_map_collect(src, log):
         cm = re.match(r'\|\s*([a-z_][A-Za-z0-9_]*)\s*\|\s*(.*)$', inner, re.S)
         tail = re.match(r'\s*\.collect\s*\(\s*\)', m[close_p + 1:])
         if not cm or not tail or not recv:
-            raise ValueError('N5: unsupported iter().map(..) site: ' + src[rs:close_p + 12][:80])
+            # not the shape the rule covers (no closure literal / no .collect()): the site is left as it is
+            log.append('N5 left an .iter().map(..) site alone: ' + src[rs:close_p + 12][:60].replace('\n', ' ')); pos = mm.end(); continue
         pat, body = cm.group(1), cm.group(2).strip()
         rep = ('{ let __s = &%s; let mut __v = Vec::new(); let mut __j: usize = 0; while __j < __s.len() { let %s = &__s[__j]; '
                '__v.push(%s); __j += 1; } __v }') % (recv, pat, body)
